@@ -9,7 +9,7 @@ From Odf Require Import model.Base model.Chars model.XmlLex model.XmlTree model.
 (* the loaded document, section by section: the kept children of the source sections routed to it, in load order;
    keep = all children when the section has an element child, nothing otherwise *)
 Theorem C05_load : forall mime se me co st, part_ok se -> part_ok me -> part_ok co -> part_ok st -> NoDup (any_regs se me co st) ->
-  i_load_doc mime se me co st = loaded_any mime se me co st.
+  i_load_doc mime se me co st = finish (loaded_any mime se me co st).
 Proof. exact load_any. Qed.
 Print Assumptions C05_load.
 
@@ -19,6 +19,14 @@ Theorem C05_sections : forall mime se me co st sid,
                       kids_routed PnContent sid (secs_of co) ++ kids_routed PnStyles sid (secs_of st)).
 Proof. exact loaded_section. Qed.
 Print Assumptions C05_sections.
+
+(* the last step of the load only drops repeated automatic styles *)
+Theorem C05_finish_section : forall sid d, sid <> SAuto -> get_sec sid (finish d) = get_sec sid d.
+Proof. exact finish_section. Qed.
+Print Assumptions C05_finish_section.
+Theorem C05_finish_auto : forall d q a ks, d_auto d = Elem q a ks -> d_auto (finish d) = Elem q a (dedupe [] ks).
+Proof. exact finish_auto. Qed.
+Print Assumptions C05_finish_auto.
 
 (* element for element: an attached subtree is unchanged (any depth), C04_attach_identity; here the two routing facts that
    are not the identity *)
@@ -38,6 +46,6 @@ Theorem C05_resave : forall env mime se me co st, let d := i_load_doc mime se me
   doc_ok F env (settings_tree d) = true -> doc_ok F env (meta_tree tv d) = true ->
   doc_ok F env (content_tree RA d) = true -> doc_ok F env (styles_tree RA d) = true ->
   i_load_doc (d_mime d) (if has_kids (d_settings d) then xml_parse (i_settingsxml env d) else None)
-             (xml_parse (snd (i_metaxml env d))) (xml_parse (i_contentxml env d)) (xml_parse (i_stylesxml env d)) = expected d.
+             (xml_parse (snd (i_metaxml env d))) (xml_parse (i_contentxml env d)) (xml_parse (i_stylesxml env d)) = finish (expected d).
 Proof. intros env mime se me co st d. exact (save_load_roundtrip env d). Qed.
 Print Assumptions C05_resave.
